@@ -21,18 +21,18 @@ func H_C20_outcome() {
 	opt := vxrt.Choice("update-option", 3)
 	api := vxrt.Choice("api", 5)
 	state := vxrt.Choice("entry-state", 3)
-	c := cfgWithOpt(dir, opt)
+	c := vxCfgWithOpt(dir, opt)
 	stored, recv := `"s"`, `"s"`
 	if state == 2 {
 		recv = `"r"`
 	}
 	if state != 0 {
 		if api < 3 {
-			writeFile(dir+"/f.snap", frame("TestM - 1", stored))
+			vxWriteFile(dir+"/f.snap", vxFrame("TestM - 1", stored))
 		} else if api == 3 {
-			writeFile(dir+"/f_1.snap", stored)
+			vxWriteFile(dir+"/f_1.snap", stored)
 		} else {
-			writeFile(dir+"/f_1.snap.json", stored)
+			vxWriteFile(dir+"/f_1.snap.json", stored)
 		}
 	}
 	name := "TestM"
@@ -43,12 +43,12 @@ func H_C20_outcome() {
 		for i := range long {
 			long[i] = 'n'
 		}
-		c = cfgWithOptName(dir, opt, string(long))
+		c = vxCfgWithOptName(dir, opt, string(long))
 	}
-	forceInit()
+	vxForceInit()
 	pre := [4]int{testEvents.items[erred], testEvents.items[added], testEvents.items[updated], testEvents.items[passed]}
 	vxrt.FSFaults(vxrt.Param("faults", 1) == 1)
-	t := newT(name)
+	t := vxNewT(name)
 	switch api {
 	case 0:
 		c.MatchSnapshot(t, recv)
@@ -72,10 +72,10 @@ func H_C20_outcome() {
 		vxrt.Assert(len(t.errors) == 1 && len(t.logs) == 0, "C20:failed-is-exactly-one-error")
 	case d[1] == 1:
 		vxrt.Reach("added")
-		vxrt.Assert(len(t.errors) == 0 && len(t.logs) == 1 && isLog(t.logs[0], "Snapshot added"), "C20:added-is-one-added-log")
+		vxrt.Assert(len(t.errors) == 0 && len(t.logs) == 1 && vxIsLog(t.logs[0], "Snapshot added"), "C20:added-is-one-added-log")
 	case d[2] == 1:
 		vxrt.Reach("updated")
-		vxrt.Assert(len(t.errors) == 0 && len(t.logs) == 1 && isLog(t.logs[0], "Snapshot updated"), "C20:updated-is-one-updated-log")
+		vxrt.Assert(len(t.errors) == 0 && len(t.logs) == 1 && vxIsLog(t.logs[0], "Snapshot updated"), "C20:updated-is-one-updated-log")
 	case d[3] == 1:
 		vxrt.Reach("passed")
 		vxrt.Assert(len(t.errors) == 0 && len(t.logs) == 0, "C20:passed-is-silent")
@@ -86,16 +86,16 @@ func H_C20_outcome() {
 // absent iff its counter is 0), the skip count and the obsolete lists.
 func H_C20_summary() {
 	vxrt.EnvFixed("NO_COLOR", "1")
-	calibrateSummary()
+	vxCalibrateSummary()
 	ev := map[uint8]int{}
 	vals := [4]int{}
 	for k := 0; k < 4; k++ {
-		vals[k] = counterVals[vxrt.Choice("counter", len(counterVals))]
+		vals[k] = vxCounterVals[vxrt.Choice("counter", len(vxCounterVals))]
 		if vals[k] != 0 {
 			ev[uint8(k)] = vals[k]
 		}
 	}
-	skips := counterVals[vxrt.Choice("skips", len(counterVals))]
+	skips := vxCounterVals[vxrt.Choice("skips", len(vxCounterVals))]
 	nf := vxrt.Len("obsolete-files", 0, 2)
 	nt := vxrt.Len("obsolete-tests", 0, 2)
 	files := []string{"a.snap", "b.snap"}[:nf]
@@ -164,19 +164,19 @@ func H_C20_summary() {
 		if nf > 1 {
 			w = " snapshot files " + action
 		}
-		vxrt.Assert(strings.Contains(s, vxArrow+itoa(nf)+w), "C20:summary-file-header")
+		vxrt.Assert(strings.Contains(s, vxArrow+vxItoa(nf)+w), "C20:summary-file-header")
 	}
 	if nt > 0 {
 		w := " snapshot test " + action
 		if nt > 1 {
 			w = " snapshot tests " + action
 		}
-		vxrt.Assert(strings.Contains(s, vxArrow+itoa(nt)+w), "C20:summary-test-header")
+		vxrt.Assert(strings.Contains(s, vxArrow+vxItoa(nt)+w), "C20:summary-test-header")
 	}
 }
 
 // counter values: absent, singular, plural, two digits
-var counterVals = []int{0, 1, 2, 11}
+var vxCounterVals = []int{0, 1, 2, 11}
 
 // H_C20_skips: the summary's skip count is the number of snaps.Skip* calls made
 // in the process, whatever the names (repeated, parent then child, ...).
@@ -188,11 +188,11 @@ func H_C20_skips() {
 	names := []string{"TestP", "TestP/child", "TestQ"}
 	k := vxrt.Len("skip-calls", 1, vxrt.Param("skips", 3))
 	for s := 0; s < k; s++ {
-		t := newT(names[vxrt.Choice("who", len(names))])
+		t := vxNewT(names[vxrt.Choice("who", len(names))])
 		w := vxrt.Choice("wrapper", 3)
 		after := false
 		// the body runs on its own goroutine and the skip ends it, as with a real testing.T
-		runTest(t, func() {
+		vxRunTest(t, func() {
 			switch w {
 			case 0:
 				Skip(t, "x")
@@ -208,9 +208,9 @@ func H_C20_skips() {
 	}
 	Clean(nil)
 	out := vxrt.Stdout()
-	want := vxSkipMark + itoa(k) + " snapshot skipped\n"
+	want := vxSkipMark + vxItoa(k) + " snapshot skipped\n"
 	if k > 1 {
-		want = vxSkipMark + itoa(k) + " snapshots skipped\n"
+		want = vxSkipMark + vxItoa(k) + " snapshots skipped\n"
 	}
 	vxrt.Assert(strings.Contains(out, want), "C20:summary-counts-every-skip-call")
 }
@@ -221,7 +221,7 @@ func H_C20_skips() {
 func H_C20_concurrent() {
 	vxrt.CI(false)
 	vxrt.EnvFixed("NO_COLOR", "1")
-	forceInit()
+	vxForceInit()
 	vxrt.Shared(testEvents)
 	vxrt.Shared(skippedTests)
 	ev := []uint8{erred, added, updated, passed}[vxrt.Choice("event", 4)]
@@ -234,7 +234,7 @@ func H_C20_concurrent() {
 		go func() {
 			defer wg.Done()
 			testEvents.register(ev)
-			trackSkip(newT(name))
+			trackSkip(vxNewT(name))
 		}()
 	}
 	wg.Wait()
@@ -243,7 +243,7 @@ func H_C20_concurrent() {
 }
 
 // summaryCount finds the "<symbol> N snapshot(s) <verb>" line of a printed summary.
-func summaryCount(out, verb string) (int, bool) {
+func vxSummaryCount(out, verb string) (int, bool) {
 	for _, l := range strings.Split(out, "\n") {
 		if strings.HasSuffix(l, " snapshot "+verb) || strings.HasSuffix(l, " snapshots "+verb) {
 			f := strings.Fields(l)
@@ -271,9 +271,9 @@ func H_C20_clean_summary() {
 	vxrt.EnvFixed("NO_COLOR", "1")
 	vxrt.Flag("test.run", "")
 	count := vxrt.Len("count", 1, vxrt.Param("count", 2))
-	vxrt.Flag("test.count", itoa(count))
+	vxrt.Flag("test.count", vxItoa(count))
 	dir := vxrt.Dir()
-	writeFile(dir+"/f.snap", frame("TestM - 1", "one")+frame("TestM - 2", "two"))
+	vxWriteFile(dir+"/f.snap", vxFrame("TestM - 1", "one")+vxFrame("TestM - 2", "two"))
 	c := WithConfig(Dir(dir), Filename("f"))
 	withFail := vxrt.Bool("a-failing-call")
 	withAdd := vxrt.Bool("a-new-snapshot")
@@ -281,12 +281,12 @@ func H_C20_clean_summary() {
 	withObsolete := vxrt.Bool("same-obsolete-id-in-two-files")
 	cg := WithConfig(Dir(dir), Filename("g"))
 	if withObsolete {
-		writeFile(dir+"/f.snap", frame("TestM - 1", "one")+frame("TestM - 2", "two")+frame("TestOld - 1", "stale in f"))
-		writeFile(dir+"/g.snap", frame("TestM - 1", "gee")+frame("TestOld - 1", "stale in g"))
+		vxWriteFile(dir+"/f.snap", vxFrame("TestM - 1", "one")+vxFrame("TestM - 2", "two")+vxFrame("TestOld - 1", "stale in f"))
+		vxWriteFile(dir+"/g.snap", vxFrame("TestM - 1", "gee")+vxFrame("TestOld - 1", "stale in g"))
 	}
 	nPassed, nFailed, nAdded := 0, 0, 0
 	for r := 0; r < count; r++ {
-		t := newT("TestM")
+		t := vxNewT("TestM")
 		if withObsolete {
 			cg.MatchSnapshot(t, "gee")
 			nPassed++
@@ -320,7 +320,7 @@ func H_C20_clean_summary() {
 		verb string
 		want int
 	}{{"passed", nPassed}, {"failed", nFailed}, {"added", nAdded}, {"updated", 0}} {
-		n, ok := summaryCount(out, e.verb)
+		n, ok := vxSummaryCount(out, e.verb)
 		if e.want == 0 {
 			vxrt.Assert(!ok, "C20:summary-line-absent-iff-no-such-outcome")
 		} else {
